@@ -1,7 +1,7 @@
 """C14 — addresses survive encoding exactly or are refused (DESIGN.md 4/C14)."""
 import re
 
-from ..mir import Callee, last_seg, loc, op_const, op_int, op_place
+from ..mir import tymatch, Callee, last_seg, loc, op_const, op_int, op_place
 from .common import const_cmp_of_switch, gates_of_value, returns_variant
 
 EXPLANATION = (
@@ -237,7 +237,7 @@ def variant_regions_decoder(b):
             if s["k"] == "assign" and s["rv"]["k"] == "agg" and s["rv"]["ak"] == "adt":
                 v = s["rv"]["variant"]
                 d = s["rv"].get("def", "")
-                if d.endswith("address::Address") and v == "Domain":
+                if tymatch(d, "address::Address") and v == "Domain":
                     markers["Domain"] = blk
                 elif d.endswith("SocketAddr") and v in ("V4", "V6"):
                     markers[v] = blk
@@ -430,7 +430,7 @@ def e2_e3(ctx, prog, bodies):
                 for s_ in d.stmts(blk):
                     if s_["k"] == "assign" and s_["rv"]["k"] == "agg" and s_["rv"].get("ak") == "adt":
                         df, vr = s_["rv"].get("def", ""), s_["rv"].get("variant")
-                        if df.endswith("address::Address"):
+                        if tymatch(df, "address::Address"):
                             kind = "Domain" if vr == "Domain" else "socket"
                         elif df.endswith("SocketAddr") and vr in ("V4", "V6"):
                             kind = vr
